@@ -94,6 +94,102 @@ def drive_shape(args):
         except Exception as e:  # noqa
             cases.append({'kind': 'equal', 't': PT.encode_struct(a), 'u': PT.encode_struct(a), 'out': 'raise:' + type(e).__name__,
                           'equal': False, 'equal_rev': False, 'close': [], 'closedef': [], 'tdef': False, 'tag': ['clone']})
+    # (7) a tensor against VIEWS OF ITSELF that share its physical axes in other roles (transpose / permute keep
+    # the PhysicalAxis objects): the two operands are not disjoint and must be renamed apart before unification
+    for i in range(max(2, n // 2)):
+        a = quarter_values(rng, PT.gen_pattern(rng, types, default=rng.choice([0.0, 1.0, -2.0]), start_id=1))
+        if rng.random() < 0.5 and a['ph']:
+            # make the denotation symmetric-ish more often: few distinct values
+            a['ph'] = [rng.choice([0.0, 1.0]) for _ in a['ph']]
+        try:
+            with warnings.catch_warnings():
+                warnings.simplefilter('ignore')
+                t = PT.build(a, dtype)
+                nd = t.dim()
+                views = []
+                if nd >= 2:
+                    views.append(('view_T', t.T))
+                    for i1 in range(nd):
+                        for i2 in range(i1 + 1, nd):
+                            if t.size()[i1] == t.size()[i2]:
+                                views.append((f'view_transpose', t.transpose(i1, i2)))
+                    if nd >= 3:
+                        perm = list(range(nd))
+                        rng.shuffle(perm)
+                        views.append(('view_permute', t.permute(perm)))
+                for name, u in views[:4]:
+                    c = {'kind': 'equal', 't': PT.readback(t), 'u': PT.readback(u), 'out': 'ok', 'equal': False, 'equal_rev': False,
+                         'close': [], 'closedef': [], 'tdef': bool(t.equal_default()), 'tag': [name]}
+                    try:
+                        c['equal'], c['equal_rev'] = bool(t.equal(u)), bool(u.equal(t))
+                        for rtol, atol in TOLS[:3]:
+                            c['close'].append({'rtol': int(rtol * 1000), 'atol': int(atol * 1000), 'eqnan': False,
+                                               'r': bool(t.allclose(u, rtol=rtol, atol=atol))})
+                    except Exception as e:  # noqa
+                        c['out'] = 'raise:' + type(e).__name__
+                        c['err'] = str(e)[:150]
+                    cases.append(c)
+        except Exception as e:  # noqa
+            raise MachineryFailure(f'view family: could not build {a!r}: {e!r}')
+    return cases
+
+
+def view_cases(seed, n):
+    """(8) tensors that DO equal some of their own views: symmetric matrices (dense, embedded block with a
+    non-zero default, diagonal, product axes with swapped factors) and symmetric 3-way tensors, against
+    t.T / transpose / permute, which share the PhysicalAxis objects of t in other roles."""
+    import torch, itertools
+    rng = rng_for(seed, 'c13views')
+    cases = []
+    P = lambda i, k: {'k': 'P', 'id': i, 'n': k}
+    for i in range(n):
+        k = rng.choice([2, 3])
+        d = rng.choice([0.0, -2.0, 1.0])
+        sym = rng.random() < 0.7
+        M = [[float(rng.choice([1, 2, 3, 4, 5])) for _ in range(k)] for _ in range(k)]
+        if sym:
+            for a in range(k):
+                for b in range(a):
+                    M[a][b] = M[b][a]
+        flat = [x for r in M for x in r]
+        form = i % 5
+        if form == 0:
+            st = {'ps': [P(1, k), P(2, k)], 'vs': [P(1, k), P(2, k)], 'd': d, 'ph': flat}
+        elif form == 1:
+            b_, a_ = rng.choice([(1, 0), (0, 1), (1, 1), (2, 0)])
+            st = {'ps': [P(1, k), P(2, k)], 'vs': [{'k': 'S', 'b': b_, 't': P(1, k), 'a': a_}, {'k': 'S', 'b': b_, 't': P(2, k), 'a': a_}], 'd': d, 'ph': flat}
+        elif form == 2:
+            st = {'ps': [P(1, k)], 'vs': [P(1, k), P(1, k)], 'd': d, 'ph': flat[:k]}
+        elif form == 3:
+            st = {'ps': [P(1, k), P(2, k)], 'vs': [{'k': 'X', 'fs': [P(1, k), P(2, k)]}, {'k': 'X', 'fs': [P(2, k), P(1, k)]}], 'd': d, 'ph': flat}
+        else:
+            T3 = {}
+            for q in itertools.product(range(k), repeat=3):
+                key = tuple(sorted(q)) if sym else q
+                T3.setdefault(key, float(rng.choice([1, 2, 3, 4])))
+            ph3 = [T3[tuple(sorted(q)) if sym else q] for q in itertools.product(range(k), repeat=3)]
+            st = {'ps': [P(1, k), P(2, k), P(3, k)], 'vs': [P(1, k), P(2, k), P(3, k)], 'd': d, 'ph': ph3}
+        try:
+            with warnings.catch_warnings():
+                warnings.simplefilter('ignore')
+                t = PT.build(st, torch.float64, 'transposed' if i % 2 else 'contig')
+                views = [('view_T', t.T), ('view_transpose', t.transpose(0, 1))]
+                if t.dim() == 3:
+                    views += [('view_permute', t.permute((1, 2, 0))), ('view_transpose', t.transpose(0, 2))]
+                for name, u in views:
+                    c = {'kind': 'equal', 't': PT.readback(t), 'u': PT.readback(u), 'out': 'ok', 'equal': False, 'equal_rev': False,
+                         'close': [], 'closedef': [], 'tdef': bool(t.equal_default()), 'tag': [name]}
+                    try:
+                        c['equal'], c['equal_rev'] = bool(t.equal(u)), bool(u.equal(t))
+                        for rtol, atol in TOLS[:3]:
+                            c['close'].append({'rtol': int(rtol * 1000), 'atol': int(atol * 1000), 'eqnan': False,
+                                               'r': bool(t.allclose(u, rtol=rtol, atol=atol))})
+                    except Exception as e:  # noqa
+                        c['out'] = 'raise:' + type(e).__name__
+                        c['err'] = str(e)[:150]
+                    cases.append(c)
+        except Exception as e:  # noqa
+            raise MachineryFailure(f'view family: could not build {st!r}: {e!r}')
     return cases
 
 
@@ -146,7 +242,8 @@ def run(tier, seed):
     shapes = c06.typed_shapes(rng, nshapes)
     with Scratch() as work:
         res = pmap(drive_shape, [(s, seed * 100000 + i, n) for i, s in enumerate(shapes)], chunksize=1)
-        cases = [c for cs in res for c in cs] + multi_cases(seed, 200 if tier == 'quick' else 3000)
+        cases = [c for cs in res for c in cs] + multi_cases(seed, 200 if tier == 'quick' else 3000) \
+            + view_cases(seed, 60 if tier == 'quick' else 600)
         verdicts, st, tr, _ = judge_batch(work / 'judge', 'Trace_Tensor', cases, per_shard_min=100, heap='3g')
         o.states += st
         o.transitions += tr
